@@ -129,8 +129,8 @@ set_option maxHeartbeats 1600000 in
 /-- horizontal stage + vertical stage: the value `t` the inverse row pass produces for pixel (y,x) before +128/clamp -/
 theorem block_int (d q : Blk) (hd : ∀ y j, -128 ≤ d y j ∧ d y j ≤ 127) (hq : ∀ v k, 1 ≤ q v k) (y x : Nat) (hy : y < 8) (hx : x < 8) :
     ∃ t, irowF (icolF (quantF (colF (rowF d)) q) q) y x = Go.uwrap8 (Clamp (t + 128) 0 255) ∧
-      -(576460752303423488 + 268435456 * sum8 (fun k => Gabs x k * colQ q y k)) ≤ 288230376151711744 * (t - d y x) ∧
-      288230376151711744 * (t - d y x) ≤ 576460752303423488 + 268435456 * sum8 (fun k => Gabs x k * colQ q y k) := by
+      -(415051741658464912 + 268435456 * sum8 (fun k => Gabs x k * colQ q y k)) ≤ 288230376151711744 * (t - d y x) ∧
+      288230376151711744 * (t - d y x) ≤ 415051741658464912 + 268435456 * sum8 (fun k => Gabs x k * colQ q y k) := by
   have hr := rowF_facts d y
   have hi := irowF_facts (icolF (quantF (colF (rowF d)) q) q) y
   have hA := Acon_le y
